@@ -324,6 +324,14 @@ def run(ctx):
             prog = ser((b"\x01", (to_list(spends), b"")))
             cases.append({"program": prog, "refs": [], "flags": F["DONT_VALIDATE_SIGNATURE"], "max_cost": G.BLOCK, "kind": "twins",
                           "tags": [("twins", differ)], "memo_used": []})
+    # non-canonical first bytes of the generator (quote atom with over-long length prefixes, back-reference, nested,
+    # two-byte, nil), with and without SIMPLE_GENERATOR: get_coinspends*_for_trusted_block apply the byte-level
+    # check_generator_quote like full validation does; the helpers' mirrors are compared on rejected inputs too
+    for c in env.head_cases(per_head=1 if tier == "quick" else 10):
+        c["max_cost"] = G.BLOCK
+        c.pop("budget", None)
+        c["memo_used"] = []
+        cases.append(c)
     impl_only = []
     for name, prog, refs, big in G.file_cases(tier, env):
         for fl in [F["DONT_VALIDATE_SIGNATURE"], env.mempool_mode | F["DONT_VALIDATE_SIGNATURE"]]:
